@@ -154,6 +154,39 @@ func ids(s string) string {
 	return strings.Join(out, ",")
 }
 
+// clustersOf: uniseg's grapheme clusters of s (state threaded through, as the widgets do)
+func clustersOf(s string) []string {
+	var out []string
+	st := -1
+	var c string
+	for len(s) > 0 {
+		c, s, _, st = uniseg.FirstGraphemeClusterInString(s, st)
+		out = append(out, c)
+	}
+	return out
+}
+
+// segLaws checks Spec.Editor.Segmentation's three laws on the real uniseg for the text s: the clusters
+// concatenate to s; the first i clusters, re-segmented, are i clusters; no prefix of s (cut at any code
+// point) has more clusters than s.  "ok" or the law that fails.
+func segLaws(s string) string {
+	cs := clustersOf(s)
+	if strings.Join(cs, "") != s {
+		return "concat"
+	}
+	for i := 0; i <= len(cs); i++ {
+		if len(clustersOf(strings.Join(cs[:i], ""))) != i {
+			return fmt.Sprintf("prefix%d", i)
+		}
+	}
+	for j := range s {
+		if len(clustersOf(s[:j])) > len(cs) {
+			return fmt.Sprintf("mono%d", j)
+		}
+	}
+	return "ok"
+}
+
 func str(idl []int) string {
 	var b strings.Builder
 	for _, i := range idl {
@@ -398,6 +431,14 @@ func (t *tfRun) do(op []string) (string, string, bool) {
 			t.tf.DeleteCursorToEndOfLine()
 		case "reset":
 			t.tf.Reset()
+		case "seg":
+			// the three segmentation laws asked of uniseg, on one text: the widget is not touched
+			idl, pok := parseIds(op[1])
+			if !pok {
+				ok = false
+				return
+			}
+			res = "seg=" + ids(str(idl)) + " laws=" + segLaws(str(idl))
 		case "draw":
 			w, _ := strconv.Atoi(op[1])
 			h, _ := strconv.Atoi(op[2])
@@ -1123,6 +1164,54 @@ func run(r *hx.Run) error {
 					}
 				}
 			}
+		}
+
+		// Segmentation laws on the real uniseg (and on the driver's clUax) for every text over the atoms up to
+		// length 3 (thorough: 4) and random longer ones; the op does not touch the widget
+		{
+			atomMode = true
+			maxL := 3
+			nLong := 3000
+			if r.Thorough {
+				maxL = 4
+				nLong = 40000
+			}
+			var batch [][]string
+			flush := func() {
+				if len(batch) > 0 {
+					runCase(r, "tfc", next(), nil, batch)
+					r.Add("seglaw-texts", len(batch))
+					batch = nil
+				}
+			}
+			var rec func(pre []int)
+			rec = func(pre []int) {
+				if len(pre) > 0 {
+					batch = append(batch, []string{"seg", idList(pre)})
+					if len(batch) == 64 {
+						flush()
+					}
+				}
+				if len(pre) == maxL {
+					return
+				}
+				for a := range atoms {
+					rec(append(append([]int(nil), pre...), a))
+				}
+			}
+			rec(nil)
+			for i := 0; i < nLong; i++ {
+				n := rng.Range(4, 14)
+				t := make([]int, n)
+				for j := range t {
+					t[j] = rng.Intn(len(atoms))
+				}
+				batch = append(batch, []string{"seg", idList(t)})
+				if len(batch) == 64 {
+					flush()
+				}
+			}
+			flush()
 		}
 
 		// random sequences over all atoms
